@@ -211,7 +211,13 @@ impl RADAU {
             Some(v) => v,
             None => {
                 let tolst = rtol[0];
-                (10.0 * uround / tolst).max(0.03f64.min(tolst.sqrt()))
+                if tolst > 0.0 {
+                    (10.0 * uround / tolst).max(0.03f64.min(tolst.sqrt()))
+                } else {
+                    // pure absolute control (rtol = 0): 10*uround/0 would switch the convergence
+                    // test off; the increments are measured in the atol-scaled norm, use the cap
+                    0.03
+                }
             }
         };
 
